@@ -2,7 +2,7 @@
 from oblib import ob
 
 BOUNDS = {
-    "quick": "duplicate member names (compared after unescaping) injected through templates with symbolic name bytes at depth 0/1 and inside arrays, on the decode entry points Value.IsValid, ReadToken loop, ReadValue loop (jsontext) and the untyped unmarshal fast path, for AllowDuplicateNames x AllowInvalidUTF8; the field bit-set uintSet from an arbitrary pre-state with 0..3 high words and indices < 256.",
+    "quick": "[targets] a duplicated, possibly escaped name one level down into 8 kinds of target at that position (struct, map, any, raw jsontext.Value, skipped unknown member, embedded raw fallback, embedded map fallback, pointer to map): rejected by default iff the names are equal after unescaping, accepted with AllowDuplicateNames. [coder level] duplicate member names (compared after unescaping) injected through templates with symbolic name bytes at depth 0/1 and inside arrays, on the decode entry points Value.IsValid, ReadToken loop, ReadValue loop (jsontext) and the untyped unmarshal fast path, for AllowDuplicateNames x AllowInvalidUTF8; the field bit-set uintSet from an arbitrary pre-state with 0..3 high words and indices < 256.",
     "thorough": "more and longer name templates (escapes \\\\u00XX vs raw, two-byte names, three members, invalid UTF-8 mangling to U+FFFD).",
 }
 ASSUMPTIONS = [
@@ -30,4 +30,11 @@ def obligations(tier):
         for pre in B:
             for d in B:
                 L.append(ob("map/%s/prefilled=%d/dup=%d" % (t.replace('"', ''), pre, d), ".", "VerifC08Map", [t, pre, d], covers=["accept"] if d else ["accept", "reject"], max_seconds=600))
+    # the duplicated (possibly escaped) name one level down, for every kind of target at that position
+    for i, t in enumerate(['{"x":{"?":1,"?":2}}', '{"x":{"\\u006?":1,"a":2}}'] if q else ['{"x":{"?":1,"?":2}}', '{"x":{"\\u006?":1,"a":2}}', '{"x":{"a":1,"?":{"b":1,"?":2}}}', '{"y":1,"x":{"??":1,"a?":2}}']):
+        for target in range(8):
+            for d in (False, True):
+                if q and d and target not in (1, 2):
+                    continue
+                L.append(ob("targets/t%d/target=%d/dup=%d" % (i, target, d), ".", "VerifC08Targets", [t, target, d], covers=["accept"] if d else ["accept", "reject"], max_seconds=600))
     return L
